@@ -595,4 +595,47 @@ theorem kill_safe (d : Dir) (mode : BackupMode) (name old new : List UInt8) (l :
         intro e; rw [e, backup_target_absent hN] at hv; cases hv
       rw [h2 k hk hkb]; exact hv
 
+/-! ## Consecutive numbering: the overwrite after the one that took backup N takes N+1 -/
+
+theorem maxList_le (l : List Nat) (b : Nat) (h : ∀ m ∈ l, m ≤ b) : maxList l ≤ b := by
+  induction l with
+  | nil => simp [maxList]
+  | cons x r ih =>
+    simp only [maxList]
+    have h1 := h x (List.mem_cons_self ..)
+    have h2 := ih (fun m hm => h m (List.mem_cons_of_mem _ hm))
+    omega
+
+theorem isNumBackup_self (name : Name) : isNumBackup name name = none := by
+  cases h : isNumBackup name name with
+  | none => rfl
+  | some n =>
+    obtain ⟨ds, _, _, he, _⟩ := (isNumBackup_iff name name n).1 h
+    have := congrArg List.length he
+    simp at this
+
+theorem nextBackupNum_after_overwrite (d : Dir) (name old new : List UInt8) (N : Nat)
+    (hold : d.get name = some old) (hN : nextBackupNum d.names name = some N) (hlt : N + 1 < 2^64) :
+    nextBackupNum (copyOnce d (.numbered, name, new)).names name = some (N + 1) := by
+  obtain ⟨_, h2, _, h4, h5⟩ := copyOnce_numbered_keeps_old d name old new N hold hN
+  have hN64 := (nextBackupNum_eq_some _ _ _ hN).2
+  have hmax : maxList (backupNums (copyOnce d (.numbered, name, new)).names name) = N := by
+    apply Nat.le_antisymm
+    · apply maxList_le
+      intro m hm
+      obtain ⟨c, hc, hcm⟩ := List.mem_filterMap.1 hm
+      by_cases e1 : c = name
+      · subst e1; rw [isNumBackup_self] at hcm; cases hcm
+      by_cases e2 : c = backupName name N
+      · subst e2; rw [isNumBackup_backupName name N hN64] at hcm; cases hcm; exact Nat.le_refl _
+      obtain ⟨v, hv⟩ := (Dir.mem_names_iff _ c).1 hc
+      rw [h5 c e1 e2] at hv
+      have := h4 c ((Dir.mem_names_iff d c).2 ⟨v, hv⟩) m hcm
+      omega
+    · apply le_maxList
+      exact List.mem_filterMap.2 ⟨backupName name N, (Dir.mem_names_iff _ _).2 ⟨old, h2⟩,
+        isNumBackup_backupName name N hN64⟩
+  unfold nextBackupNum
+  simp only [hmax, hlt, if_true]
+
 end Xcp
